@@ -45,7 +45,7 @@ func (r *result) v(sig, format string, a ...any) {
 	}
 }
 
-var famNames = []string{"zeros", "ones", "alt±1", "ramp", "subnormal", "big-small", "one-huge", "lfsr", "near-equal-large"}
+var famNames = []string{"zeros", "ones", "alt±1", "ramp", "subnormal", "big-small", "one-huge", "lfsr", "near-equal-large", "subnormal-times-large"}
 
 func fill(dst []float32, fam, n, which int) {
 	lf := uint32(0xACE1 + n*2654435761 + which*97)
@@ -94,6 +94,17 @@ func fill(dst []float32, fam, n, which int) {
 			// distance is tiny compared with the norms (an expanded-form kernel
 			// |x|^2+|y|^2-2<x,y> cancels catastrophically here)
 			v = 100 + float32(i%5) + float32(which)/1024
+		case 9:
+			// one operand subnormal (about 1e-40), the other 1e16: every product is an
+			// ordinary float32 (about 1e-24) although one factor is not - a kernel
+			// that treats subnormal inputs as zero returns 0 for a clearly non-zero
+			// definition (a subnormal family in BOTH operands underflows in the
+			// definition too and cannot tell)
+			if which == 0 {
+				v = math.Float32frombits(uint32(60000 + (i*7)%9000))
+			} else {
+				v = 1e16
+			}
 		}
 		dst[i] = v
 	}
